@@ -86,6 +86,8 @@ class G17:
         s = self.stmt(d)
         if s.startswith("if"):
             return "{ " + s + " }"
+        if s == ";":
+            return "{ }"  # listed finding if_empty_body_is_call is masked
         return s
 
 
